@@ -93,3 +93,14 @@ func H_C06_WriterAgreement() {
 	rt.Assert(err == nil && got == f, "C06.writer.agrees")
 	rt.Assert(s.AtStart(), "C06.offset0")
 }
+
+// H_C06_LinesTwice: detection does not depend on what was sniffed before (no scratch state survives a call).
+func H_C06_LinesTwice() {
+	first := rt.NewTextStream(rt.NondetString("first"))
+	(&formats.Sniffer{}).SniffReader(first)
+	line := rt.NondetString("second")
+	second := rt.NewTextStream(line)
+	f, err := (&formats.Sniffer{}).SniffReader(second)
+	rt.Assert(rt.Iff(err == nil, f != ""), "C06.lines.formatorerror")
+	rt.Assert(rt.Implies(f != "", rt.StrContains(line, "SPDXVersion:")), "C06.lines.onlyifdeclared")
+}
